@@ -15,7 +15,8 @@ Response (TAB separated):
 * `parse=error line=<n> msg=<text>` | `wf=fail module=… clause=…` | `eval=error msg=<text>`
 * `eval=ok trace=<row;row;…> xdep=<0|1> [trace1=<row;…>]` — one row per observation time (after the
   initial settle and after every event), values comma separated in the order of `obs`; `trace` resolves
-  undefined values to zeros, `trace1` (only when it differs: `xdep=1`) to ones.
+  undefined values to zeros, `trace1` (only when it differs: `xdep=1`) to ones; `collide=<k>`: the first event in
+  which write ports of different clocks write different data to the same bits (-1: never) — undefined from there on.
 -/
 
 open Amaranth Amaranth.Rtlil
@@ -41,9 +42,9 @@ def tab (xs : List String) : String := "\t".intercalate xs
 def clean (s : String) : String := String.ofList (s.toList.map (fun c => if c == '\t' || c == '\n' then ' ' else c))
 
 def runOnce (f : Flat) (xres : Bool) (init : List (String × Nat)) (events : List (List (String × Nat))) (obs : List String) :
-    Except String (List (List Nat)) := do
+    Except String (List (List Nat) × Option Nat) := do
   let s ← mkSim f xres
-  runTrace s init events obs
+  runTraceC s init events obs
 
 def handleRun (text : String) (init : List (String × Nat)) (events : List (List (String × Nat))) (obs : List String) : String :=
   match parse text with
@@ -60,12 +61,18 @@ def handleRun (text : String) (init : List (String × Nat)) (events : List (List
         else
           match runOnce f false init events obs with
           | .error e => tab ["eval=error", s!"msg={clean e}"]
-          | .ok t0 =>
+          | .ok (t0, c0) =>
             match runOnce f true init events obs with
             | .error e => tab ["eval=error", s!"msg={clean e}"]
-            | .ok t1 =>
-              if t0 == t1 then tab ["eval=ok", s!"trace={showRows t0}", "xdep=0"]
-              else tab ["eval=ok", s!"trace={showRows t0}", "xdep=1", s!"trace1={showRows t1}"]
+            | .ok (t1, c1) =>
+              -- the first event with a cross-clock write collision under either resolution (-1: none)
+              let c := match c0, c1 with
+                | some a, some b => toString (min a b)
+                | some a, none => toString a
+                | none, some b => toString b
+                | none, none => "-1"
+              if t0 == t1 then tab ["eval=ok", s!"trace={showRows t0}", "xdep=0", s!"collide={c}"]
+              else tab ["eval=ok", s!"trace={showRows t0}", "xdep=1", s!"trace1={showRows t1}", s!"collide={c}"]
 
 def handle (line : String) : String :=
   match Sexp.parse line with
